@@ -2821,7 +2821,8 @@ class Stream:
         try:
             file_stat = os.stat(obj.name)
             buffer_size = file_stat.st_blksize
-        except (FileNotFoundError, PermissionError, OSError):
+        except (AttributeError, FileNotFoundError, PermissionError, OSError):
+            # In-memory buffered streams (ex. io.BytesIO) have no 'name' to stat
             buffer_size = 8192
 
         self._obj = obj
